@@ -1,5 +1,5 @@
 (** * C11 -- measure, if, reset and barrier *)
-From QV Require Import Interp Sym ScalarR C11T.
+From QV Require Import Interp Sym Reg ScalarR RegP C05T C07T2 C11T C11T2.
 
 Theorem C11_blocks : C11_blocks_stmt.
 Proof. exact C11_blocks_proof. Qed.
@@ -16,3 +16,7 @@ Print Assumptions C11_measure.
 Theorem C11_reset : C11_reset_stmt.
 Proof. exact C11_reset_proof. Qed.
 Print Assumptions C11_reset.
+
+Theorem C11_reset_born : C11_reset_born_stmt.
+Proof. exact C11_reset_born_proof. Qed.
+Print Assumptions C11_reset_born.
